@@ -3,6 +3,7 @@ package main
 import (
 	"fmt"
 	"go/token"
+	"go/types"
 	"strings"
 
 	"golang.org/x/tools/go/ssa"
@@ -284,10 +285,9 @@ func (c *Ctx) checkFinishedSite(r *Report, rule, key string, fs finishedSite) {
 		if !ok || !isAdvanceReturn(ret) {
 			continue
 		}
-		// only exits reachable after the Finished was pulled matter
-		if !instrReaches(fs.ta, ret) {
-			continue
-		}
+		// every advancing exit of the parser that consumes the Finished counts, also one taken
+		// before the message is looked at (the FSM reads a returned last-receive flight as
+		// "handshake complete")
 		nExit++
 		for _, k := range flightConstsOf(unspill(ret.Results[0]), 0) {
 			for name, v := range c.enumConsts(pkgF12, "Flight") {
@@ -419,4 +419,203 @@ func flightConstsOf(v ssa.Value, d int) []int64 {
 		}
 	}
 	return out
+}
+
+// ruleFinished13 (C04, DTLS 1.3): the peer's Finished is checked against
+// HMAC(finished_key(peer's handshake traffic secret), hash of the transcript *before* that
+// Finished), with a constant-time comparison whose failure is an error, and the Finished message
+// enters the transcript only after it verified.
+func ruleFinished13(c *Ctx, r *Report) {
+	const rule = "finished13"
+	hs := "internal/handshake"
+	// (a) the comparison itself
+	if fn := c.need(r, rule, hs+".verifyFinishedData"); fn != nil {
+		r.Sites += len(fn.Blocks)
+		okRets := possibleSuccessReturns(fn)
+		good := false
+		for _, e := range findCalls(fn, nameIs("crypto/hmac.Equal", "crypto/subtle.ConstantTimeCompare", "bytes.Equal")) {
+			a, b := e.Call.Args[0], e.Call.Args[1]
+			isExp := func(v ssa.Value) bool { return isCallResult(v, nameIs(hs+".finishedVerifyData")) }
+			isGot := func(v ssa.Value) bool { p, ok := v.(*ssa.Parameter); return ok && paramIndex(p) == 3 }
+			if !((isExp(a) && isGot(b)) || (isExp(b) && isGot(a))) {
+				continue
+			}
+			all := len(okRets) > 0
+			for _, ret := range okRets {
+				if g, _ := guardedBy(e, e, ret); !g {
+					all = false
+				}
+			}
+			// the expectation is computed from this call's hash function, key and transcript hash
+			for _, fv := range findCalls(fn, nameIs(hs+".finishedVerifyData")) {
+				for i := 0; i < 3; i++ {
+					if p, ok := fv.Call.Args[i].(*ssa.Parameter); !ok || paramIndex(p) != i {
+						all = false
+					}
+				}
+			}
+			if all {
+				good = true
+			}
+		}
+		r.Check(good, rule, short(fn), c.pos(fn.Pos()), "verify_data compared with finishedVerifyData(hash, key, transcript hash); nil only if equal", "the received verify_data is not compared with HMAC(finished_key, transcript hash) on every successful path")
+	}
+	// (b) the transcript hash is the snapshot of the transcript that was passed in
+	if fn := c.need(r, rule, hs+".VerifyFinishedDataFromTranscript"); fn != nil {
+		r.Sites += len(fn.Blocks)
+		good := false
+		for _, call := range findCalls(fn, nameIs(hs+".verifyFinishedData")) {
+			a := call.Call.Args
+			p1, ok1 := a[1].(*ssa.Parameter)
+			p3, ok3 := a[3].(*ssa.Parameter)
+			snap := false
+			for _, l := range c.Origins(a[2], 0) {
+				if ex, isEx := l.(*ssa.Extract); isEx {
+					if sc, isCall := ex.Tuple.(*ssa.Call); isCall && strings.HasSuffix(calleeName(&sc.Call), "Transcript).SnapshotHash") {
+						if p, isP := sc.Call.Args[0].(*ssa.Parameter); isP && paramIndex(p) == 2 {
+							snap = true
+						}
+					}
+				}
+			}
+			good = ok1 && ok3 && paramIndex(p1) == 1 && paramIndex(p3) == 3 && snap
+		}
+		r.Check(good, rule, short(fn), c.pos(fn.Pos()), "verifyFinishedData(hash, base key, transcript.SnapshotHash(), verify_data)", "the Finished check does not use the snapshot hash of the transcript it was given, the given key or the given verify_data")
+	}
+	// (c) role: the key is the *sender's* handshake traffic secret
+	if fn := c.need(r, rule, hs+".verifyPeerFinished"); fn != nil {
+		r.Sites += len(fn.Blocks)
+		vcalls := findCalls(fn, nameIs(hs+".VerifyFinishedDataFromTranscript"))
+		if len(vcalls) != 1 {
+			r.Bad(rule, short(fn), c.pos(fn.Pos()), "expected exactly one VerifyFinishedDataFromTranscript call")
+		} else {
+			vc := vcalls[0]
+			var isClient *ssa.Parameter
+			for _, p := range fn.Params {
+				if bt, ok := p.Type().Underlying().(*types.Basic); ok && bt.Kind() == types.Bool {
+					isClient = p
+				}
+			}
+			for _, role := range []bool{true, false} {
+				rl := role
+				want := hs + ".ServerHandshakeFinishedBaseKey"
+				if rl {
+					want = hs + ".ClientHandshakeFinishedBaseKey"
+				}
+				// which side's base key reaches the verification on the paths of this role; private
+				// helpers are followed and their results resolved per path
+				sideOf := func(v ssa.Value) string {
+					if call, _ := callOfResult(v); call != nil {
+						n := calleeName(&call.Call)
+						if n == hs+".ClientHandshakeFinishedBaseKey" || n == hs+".ServerHandshakeFinishedBaseKey" {
+							return n
+						}
+					}
+					return ""
+				}
+				helperSide := map[*ssa.Call]string{}
+				sides := map[string]bool{}
+				var resolve func(v ssa.Value, raw map[*ssa.Phi]ssa.Value) string
+				resolve = func(v ssa.Value, raw map[*ssa.Phi]ssa.Value) string {
+					v = unspill(resolvePhis(v, raw))
+					if sd := sideOf(v); sd != "" {
+						return sd
+					}
+					if call, _ := callOfResult(v); call != nil {
+						if sd, ok := helperSide[call]; ok {
+							return sd
+						}
+						return "result of " + calleeName(&call.Call)
+					}
+					return shapeOf(v, 0)
+				}
+				w := &Walk{Fn: fn, Follow: followSamePkg(fn), Assume: func(v ssa.Value) (Val, bool) {
+					if isClient != nil && v == ssa.Value(isClient) {
+						return vBool(rl), true
+					}
+					return unknown, false
+				}}
+				w.OnReturn = func(call *ssa.Call, ret *ssa.Return, _ PathState, raw map[*ssa.Phi]ssa.Value) {
+					if sideOf(call) != "" {
+						return
+					}
+					for _, res := range ret.Results {
+						if _, isB := res.Type().Underlying().(*types.Slice); isB {
+							helperSide[call] = resolve(res, raw)
+						}
+					}
+				}
+				w.VisitRaw = func(in ssa.Instruction, _ Env, raw map[*ssa.Phi]ssa.Value) bool {
+					if in == ssa.Instruction(vc) {
+						sides[resolve(vc.Call.Args[1], raw)] = true
+					}
+					return true
+				}
+				w.FromEntry()
+				got := strings.Join(sortedKeys(sides), ",")
+				r.Check(len(sides) == 1 && sides[want], rule, fmt.Sprintf("%s:isClient=%v", short(fn), rl), c.ipos(vc), "key = "+strings.TrimPrefix(got, hs+"."), fmt.Sprintf("a Finished sent by the %s is verified with [%s] (must be exactly the sender's handshake traffic secret)", map[bool]string{true: "client", false: "server"}[rl], got))
+			}
+			// transcript and verify_data
+			pT, okT := vc.Call.Args[2].(*ssa.Parameter)
+			okV := isFieldLoad(vc.Call.Args[3], "pkg/protocol/handshake.MessageFinished", "VerifyData")
+			r.Check(okT && paramIndex(pT) == 0 && okV, rule, short(fn)+":inputs", c.ipos(vc), "the caller's transcript and the message's VerifyData", "verifyPeerFinished does not check the received VerifyData against the caller's transcript")
+		}
+	}
+	// (d) the base keys are the handshake traffic secrets of their side
+	for side, name := range map[string]string{"Client": hs + ".ClientHandshakeFinishedBaseKey", "Server": hs + ".ServerHandshakeFinishedBaseKey"} {
+		fn := c.need(r, rule, name)
+		if fn == nil {
+			continue
+		}
+		good := false
+		for _, ret := range possibleSuccessReturns(fn) {
+			v := unspill(ret.(*ssa.Return).Results[0])
+			var ls []ssa.Value
+			for _, l := range c.OriginsThrough(v, 0) {
+				if !isNilConst(l) { // the nil key of a helper's error exit
+					ls = append(ls, l)
+				}
+			}
+			good = allLeaves(ls, func(l ssa.Value) bool {
+				return strings.HasSuffix(shapeOf(l, 0), "KeySchedule.HandshakeTraffic."+side)
+			})
+		}
+		r.Check(good, rule, short(fn), c.pos(fn.Pos()), "returns KeySchedule.HandshakeTraffic."+side, "the "+side+" Finished base key is not the "+side+" handshake traffic secret")
+	}
+	// (e) order in the flight processor: verify first, then append the Finished to the transcript
+	if fn := c.need(r, rule, "(*"+hs+".protectedHandshakeFlight).processFinished"); fn != nil {
+		r.Sites += len(fn.Blocks)
+		ver := findCalls(fn, nameIs(hs+".verifyPeerFinished"))
+		var apps []*ssa.Call
+		for _, u := range c.unitFuncs(fn) {
+			apps = append(apps, findCalls(u, nameIs(hs+".appendParsedInboundHandshake", hs+".appendHandshake"))...)
+		}
+		appHere := callsReached(fn, followSamePkg(fn), func(cl *ssa.Call) bool {
+			n := calleeName(&cl.Call)
+			return n == hs+".appendParsedInboundHandshake" || n == hs+".appendHandshake"
+		})
+		if len(ver) != 1 || len(appHere) == 0 {
+			r.Unk(rule, short(fn), c.pos(fn.Pos()), "expected one verifyPeerFinished call and a transcript append")
+		} else {
+			// no transcript append is reachable before the verification succeeded
+			w := &Walk{Fn: fn, Follow: followSamePkg(fn), Visit: func(in ssa.Instruction, _ Env) bool { return in != ssa.Instruction(ver[0]) }}
+			w.FromEntry()
+			early := false
+			for _, a := range appHere {
+				if w.Reached[a] {
+					early = true
+				}
+			}
+			wf := &Walk{Fn: fn, Follow: followSamePkg(fn), Assume: failAssumption(errResult(ver[0]))}
+			wf.FromEntry()
+			afterFail := false
+			for _, a := range appHere {
+				if wf.Reached[a] {
+					afterFail = true
+				}
+			}
+			r.Check(!early && !afterFail, rule, short(fn)+":order", c.ipos(ver[0]), "the Finished is appended to the transcript only after it verified (so it is verified over the transcript without itself)", "the Finished message can enter the transcript before or without its own verification")
+			_ = apps
+		}
+	}
 }
